@@ -460,10 +460,31 @@ func (t *T) coqType(pos token.Pos, goT string) string {
 }
 
 func paren(s string) string {
-	if strings.ContainsAny(s, " ") && !(strings.HasPrefix(s, "(") && strings.HasSuffix(s, ")")) {
-		return "(" + s + ")"
+	if !strings.ContainsAny(s, " ") {
+		return s
 	}
-	return s
+	// already one parenthesised / bracketed group?
+	if (s[0] == '(' || s[0] == '[') && closes(s) {
+		return s
+	}
+	return "(" + s + ")"
+}
+
+// closes: does the bracket opening s close at its very end?
+func closes(s string) bool {
+	depth := 0
+	for i, c := range s {
+		switch c {
+		case '(', '[':
+			depth++
+		case ')', ']':
+			depth--
+			if depth == 0 {
+				return i == len(s)-1
+			}
+		}
+	}
+	return false
 }
 
 func (t *T) zero(pos token.Pos, goT string) string {
@@ -646,7 +667,7 @@ func (t *T) emitEnum(name string) {
 func (t *T) useGlobal(g *globalInfo) (string, string) {
 	if !g.done {
 		g.done = true
-		f := &fctx{t: t, fi: &funcInfo{coq: g.name}, clock: map[token.Pos]int{}}
+		f := &fctx{t: t, fi: &funcInfo{coq: g.name}, clock: map[token.Pos]int{}, oracles: map[string]bool{}}
 		term, ty := f.expr(g.expr, newEnv(t))
 		if len(f.guards) > 0 || len(f.clock) > 0 {
 			t.fail(g.pos, "initialiser of global %s is not a constant expression", g.name)
